@@ -35,6 +35,19 @@ pub fn scenarios(quick: bool) -> Vec<Scenario> {
         change_sets.push((format!("update-a-{}B", s), vec![("set".into(), "a".into(), val(*s, 'A'))]));
         change_sets.push((format!("update-bb-{}B+new", s), vec![("set".into(), "bb".into(), val(*s, 'B')), ("set".into(), "d".into(), val(5, 'd'))]));
     }
+    // every key of the database is dirty, system keys included (nothing the old files hold stays referenced)
+    for s in [3usize, 300] {
+        change_sets.push((
+            format!("every-key-rewritten-{}B", s),
+            vec![
+                ("set".into(), "a".into(), val(s, 'A')),
+                ("set".into(), "bb".into(), val(s, 'B')),
+                ("set".into(), "ccc".into(), val(s, 'C')),
+                ("admin-set".into(), "$$token".into(), "tok".into()),
+                ("connect".into(), "".into(), "".into()),
+            ],
+        ));
+    }
     change_sets.push(("remove-bb".into(), vec![("remove".into(), "bb".into(), "".into())]));
     change_sets.push(("remove-a+update-ccc".into(), vec![("remove".into(), "a".into(), "".into()), ("set".into(), "ccc".into(), val(9, 'C'))]));
     change_sets.push(("increment-new+update".into(), vec![("increment".into(), "n".into(), "".into()), ("set".into(), "a".into(), val(4, 'A'))]));
@@ -139,10 +152,22 @@ pub fn run(run: &mut Run) {
         // what is on disk before the interrupted snapshot
         let before_dbs = load_copy(&p.node.ctx.dir).expect("completed snapshot must load");
         let disk0: BTreeMap<String, SnapState> = ["t", "u"].iter().map(|d| (d.to_string(), snap_state_of(&before_dbs, d).unwrap())).collect();
+        let mut extra_sessions = vec![];
         for (op, k, v) in sc.changes.iter() {
             let line = match op.as_str() {
                 "set" => format!("set {} {}", k, v),
                 "remove" => format!("remove {}", k),
+                "admin-set" => {
+                    p.admin.exec(&p.node, &format!("set {} {}", k, v));
+                    continue;
+                }
+                "connect" => {
+                    // one more session on the database: $connections changes
+                    let mut s = Session::new();
+                    s.exec(&p.node, "use-db t tok");
+                    extra_sessions.push(s);
+                    continue;
+                }
                 _ => format!("increment {}", k),
             };
             p.tok.exec(&p.node, &line);
@@ -172,6 +197,7 @@ pub fn run(run: &mut Run) {
             distinct.insert(dir_digest(&dir));
             let after_op = if k == 0 { "nothing".to_string() } else { op_class(&ops[k - 1]) };
             let before_op = if k == ops.len() { "end".to_string() } else { op_class(&ops[k]) };
+            crate::util::set_context(&format!("start-up on the directory left by a kill: {} [{}] crash after {} before {} || scenario `{}`, after {} of {} system calls", if sc.reclaim { "reclaim" } else { "incremental" }, sc.name.split(" reclaim=").next().unwrap_or(""), after_op, before_op, sc.name, k, ops.len()));
             let mut report = |clause: &str, detail: String| {
                 run.violate(Violation {
                     clause: clause.to_string(),
